@@ -202,6 +202,9 @@ func Run(t *testing.T, pl any) (res *simcore.Result) {
 		if r.w != nil {
 			r.w.close()
 		}
+		// observable event log only; the gate sequence of gated runs is reported
+		// separately (SchedFP) because Go map iteration order inside the StateDB
+		// (journal.mutations, mutations) decides in which order reads are issued
 		r.res.LogHash = uint64(r.lh)
 		r.res.StateFP = uint64(r.sfp)
 		r.res.Events = r.nobs
@@ -266,6 +269,14 @@ func (r *runner) gated() {
 
 func (r *runner) body() {
 	p := r.p
+	// the world is closed where it was opened (inside the bubble in gated runs)
+	defer func() {
+		if r.w != nil {
+			w := r.w
+			r.w = nil
+			w.close()
+		}
+	}()
 	if r.kv == nil {
 		r.kv = simdisk.NewSimKV(nil)
 	}
